@@ -62,6 +62,9 @@ def run(ctx, rep):
     rep.rule("G3", "to_stream: None -> np.random, int -> Generator(MT19937(seed)), anything else -> the argument itself", floor=1)
     rep.rule("G4", "a seed-or-generator parameter is converted once, outside every loop, and the stream (not the raw seed) is what "
                    "is handed to callees inside loops", floor=10)
+    rep.rule("G5", "a function that receives a seed-or-generator hands a value derived from it (the parameter, its stream, a spawned "
+                   "stream, an object's random_state) to every callee parameter that reaches a draw; leaving the callee's seed parameter "
+                   "at its default makes that callee draw from numpy's global state", floor=10)
     n_draw = 0
     globals_found = 0
     for f in sd.funcs:
@@ -102,6 +105,8 @@ def run(ctx, rep):
         raise AnalysisError("quara.utils.number_util.to_stream not found")
     _g3(rep, ts)
 
+    _g5(ctx, rep, sd)
+
     # ---- G4
     for f in sd.funcs:
         if not f.module.name.startswith(("quara.qcircuit", "quara.protocol", "quara.objects")):
@@ -133,6 +138,52 @@ def run(ctx, rep):
                     rep.violation("G4", f, con, why, node=n)
             else:
                 rep.holds("G4", f, con, "%d conversion(s), none inside a loop; no raw hand-off inside a loop" % len(conv), node=f.node)
+
+
+def _g5(ctx, rep, sd: Seeds):
+    for s in sd.sites:
+        f = s.func
+        if not f.module.name.startswith(SCOPE):
+            continue
+        sp = [p for p in f.params if (f.qualname, p) in sd.sinks]
+        if not sp:
+            continue
+        streams, lists = sd.stream_vars(f)
+        # a call resolved over several candidates (by method name) is judged for omission only when every
+        # candidate has a seed parameter: execute_simulation_sample_unit selects, by reflection on the
+        # signature, the branch whose generate() has none
+        every_candidate = all(any((t.qualname, q) in sd.sinks for q in t.params) for t in s.targets)
+        for t, b in sd.bindings(s):
+            if t is sd.to_stream:
+                continue
+            for q in t.params:
+                if (t.qualname, q) not in sd.sinks:
+                    continue
+                con = "%s(... %s=)" % (unparse(s.node.func)[:60], q)
+                e = b.get(q)
+                if e is None:
+                    if not every_candidate:
+                        continue
+                    if any(k.arg is None for k in s.args.keywords) or any(isinstance(a, ast.Starred) for a in s.args.args):
+                        continue            # **kwargs / *args forwarding: not decidable here, not counted
+                    rep.violation("G5", f, con, "%s receives the seed parameter %s but calls %s without passing anything for its seed parameter "
+                                                "'%s': the callee falls back to its default and draws from numpy's global state, so the result no "
+                                                "longer depends on the seed" % (f.name, sp, t.qualname, q), node=s.node)
+                    continue
+                ok = stream_ok(f, e, streams, lists) or (isinstance(e, ast.Name) and e.id in sp)
+                if not ok and isinstance(e, ast.Name):
+                    # a local derived from the seed parameter by plain assignment / arithmetic (seed + i)
+                    for n in own_nodes(f.node):
+                        if isinstance(n, ast.Assign) and any(isinstance(x, ast.Name) and x.id == e.id for x in n.targets) \
+                                and any(isinstance(x, ast.Name) and (x.id in sp or x.id in streams or x.id in lists) for x in ast.walk(n.value)):
+                            ok = True
+                if not ok and any(isinstance(x, ast.Name) and (x.id in sp or x.id in streams or x.id in lists) for x in ast.walk(e)):
+                    ok = True
+                if ok:
+                    rep.holds("G5", f, con, "%s <- %s" % (q, unparse(e)), node=s.node)
+                else:
+                    rep.violation("G5", f, con, "the value handed to the seed parameter '%s' of %s is %s, which is not derived from %s's own seed "
+                                                "parameter %s" % (q, t.qualname, unparse(e), f.name, sp), node=s.node)
 
 
 def _g3(rep, ts: Func):
